@@ -63,9 +63,9 @@ def templates():
         if arith == "int":
             body += ["print(a + b)", "print(a - b)", "print(a * b)", "print(a + b == b + a)", "print(a - a)"]
             if name != "int": body += ["print(a / b)", "print(a / 2)"]
-            else: body += ["print(-a)", "print(-(a - b))"]
+            body += ["print(-a)", "print(-(a - b))", "(-(-a)) <=> a", "(a + (-a)) <=> (a - a)", "na := a", "print(-na)", "print(na == -(-na))"]
         if arith == "float":
-            body += ["print(a + b)", "print(a - b)", "print(a * b)", "print(a / (2.0, 4.0))", "print(a / 2.0)"]
+            body += ["print(a + b)", "print(a - b)", "print(a * b)", "print(a / (2.0, 4.0))", "print(a / 2.0)", "print(-a)", "print(-(a - b))", "nb := b", "nb = -nb", "print(nb)"]
         if arith in ("int", "float", "str") or name == "tuple_str":
             body += ["c := a", "c += b", "print(c)"]
         if arith in ("int", "float"):
@@ -105,6 +105,7 @@ end
 def run(tier):
     t0 = time.time()
     art = common.artifacts()
-    return tvrun.tv_check("C19", tier, templates(), art["sylt"], t0,
+    # every operation used in the templates is one the statement says exists for that shape: a rejected template is a violation
+    return tvrun.tv_check("C19", tier, templates(), art["sylt"], t0, rejected_is_violation=True,
                           assumptions=tvrun.TV_ASSUMPTIONS + ["shapes: tuples of length 1-3, nesting depth 2, lists of length <= 3, blobs with 2 fields, enums with int / tuple payload; leaves in [0,2] (ints), [a-z0-9 ]{0,3} (strings), finite non-negative doubles",
                                                               "NaN leaves are excluded (float holes are constrained to be finite)"])
